@@ -53,6 +53,8 @@ static std::string action_text(const SutAction& a) {
 	std::string s = action_text_(a);
 	// ",t": the typed (template) form of the call, e.g. control.changeTo<T>() instead of control.changeTo(id)
 	if (a.kind != A_PLAN_WALK && a.mask[30] && !s.empty() && s[s.size() - 1] == ')') s.insert(s.size() - 1, ",t");
+	// ",alias": changeWith(dest, *control.request().payload()) -- the argument is the outstanding request's own payload
+	if (a.kind == A_CHANGE_WITH && a.mask[29] && !s.empty() && s[s.size() - 1] == ')') s.insert(s.size() - 1, ",alias");
 	return s;
 }
 static std::string action_text_(const SutAction& a) {
@@ -108,6 +110,7 @@ static bool parse_action(const std::string& tok, SutAction& a) {
 		if (parts[i].compare(0, 2, "p=") == 0) { a.has_payload = 1; if (!unhex(parts[i].substr(2), a.payload, SUT_MAX_PAYLOAD)) return false; }
 		else if (parts[i].compare(0, 2, "m=") == 0) { if (!unhex(parts[i].substr(2), a.mask, 32)) return false; }
 		else if (parts[i] == "t") { a.mask[30] = 1; }
+		else if (parts[i] == "alias") { a.mask[29] = 1; }
 		else if (parts[i] == "self") { a.mask[31] = static_cast<uint8_t>(a.mask[31] | (pi == 0 ? 1 : 2)); ++pi; }
 		else { int v = atoi(parts[i].c_str()); if (pi == 0) a.a = static_cast<uint8_t>(v); else a.b = static_cast<uint8_t>(v); ++pi; }
 	}
@@ -241,7 +244,7 @@ struct Gen {
 	SutAction change_action() {
 		SutAction a; memset(&a, 0, sizeof(a));
 		a.a = static_cast<uint8_t>(state()); maybe_self(a, 0, 8); maybe_typed(a);
-		if (payload && rng.chance(1, 2)) { a.kind = A_CHANGE_WITH; a.has_payload = 1; make_payload(a.payload); }
+		if (payload && rng.chance(1, 2)) { a.kind = A_CHANGE_WITH; a.has_payload = 1; make_payload(a.payload); if (rng.chance(1, 8)) { a.mask[29] = 1; a.mask[30] = 0; } }
 		else a.kind = A_CHANGE_TO;
 		return a;
 	}
